@@ -161,3 +161,15 @@ class Unit:
         self.includes = dict(includes or {})
         self.verus_args = list(verus_args)
         self.description = description
+
+
+class Raw:
+    """hand-written Verus text placed at a slot (refinement checks between a verified contract and the stub
+    contracts other units use for the same function). Not customasm code; a failure inside it is reported as
+    an inconsistency of the contract table (undecided), never as a violation."""
+
+    def __init__(self, slot, key, text):
+        self.slot = slot
+        self.key = key
+        self.text = text
+        self.mode = "raw"
